@@ -122,7 +122,7 @@ func forEachV3Base(f func(i int, x spec.V3Idx)) {
 func TestC01(t *testing.T) {
 	c := begin(t, "C01")
 	defer c.end()
-	c.rec.F.Rule = "enumeration: every (version, AV, AC, PR, UI, S, C, I, A) combination decoded by the base, temporal and environmental decoder (canonical order; thorough: plus 64 hash-seeded permutations / optional-metric decorations each); rapid: random combination, decoder, nil receiver, token permutation, optional metrics. Non-trivial = (version, base tuple, decoder, presentation) with non-zero impact; distinct by construction in the enumeration, by hash of (decoder, input) in rapid."
+	c.rec.F.Rule = "enumeration: every (version, AV, AC, PR, UI, S, C, I, A) combination decoded by the base, temporal and environmental decoder (canonical order; thorough: plus 64 hash-seeded permutations / optional-metric decorations each); rapid: random combination, decoder, nil receiver, token permutation, optional metrics. Non-trivial = (version, base tuple, decoder, presentation) with non-zero impact; distinct by construction in the enumeration, by hash of (decoder, input) in rapid. A quarter of the constructor-made decoders have every observer of every view called once before their single Decode (queried_before_decode)."
 	c.rec.F.Assumptions = []string{"reference model: FIRST v3.0/v3.1 base equations in exact rational arithmetic (harness/spec), Roundup in the reading of the vector's own version", "library constants are bound to specification codes by exported constant name"}
 
 	variants := int(pick(0, 64))
